@@ -63,8 +63,19 @@ C14_EPOLL = [
     H("ioep", "ep_cancel_w", 3, 4, args=[m], **{"cache-bits": 24}) for m in (0, 1, 2)] + [
     H("ioep", "ep_reuse", 3, 4, args=[m], **{"cache-bits": 24}) for m in (0, 1)] + [
     H("ioep", "ep_fault", 2, 3, args=list(a)) for a in ((0, 0, 1, 5), (0, 0, 0, 5), (0, 1, 1, 5), (0, 1, 0, 5), (1, 0, 1, 5), (1, 0, 0, 5), (1, 1, 1, 5), (1, 1, 0, 5), (0, 0, 1, 9), (1, 0, 1, 32))]
+C14_URING = [
+    H("iour", "ur_sched", 3, 4, args=[2]), H("iour", "ur_sched", 3, 4, args=[1]),
+    H("iour", "ur_stop", 3, 4),
+] + [H("iour", "ur_timer", 3, 4, args=[m]) for m in (0, 1, 2, 3, 4)] + [
+    H("iour", "ur_file", 3, 4, args=list(a)) for a in ((3, 4, 0), (3, 4, 1), (6, 4, 2), (1, 8, 0))] + [
+    H("iour", "ur_cancel", 3, 4, args=list(a), **{"cache-bits": 24}) for a in ((0, 2), (1, 2), (2, 2), (0, 0), (1, 0), (2, 0))] + [
+    H("iour", "ur_cancel_w", 3, 4, args=[m], **{"cache-bits": 24}) for m in (0, 1, 2)] + [
+    H("iour", "ur_full", 2, 3, args=[3, 0], **{"cache-bits": 24}), H("iour", "ur_full", 2, 3, args=[3, 1], **{"cache-bits": 24}),
+    H("iour", "ur_cq_budget", 1, 2), H("iour", "ur_cq_budget_feed", 2, 3, args=[5], **{"cache-bits": 24}),
+    H("iour", "ur_fault", 2, 3, args=[0, 5]), H("iour", "ur_fault", 2, 3, args=[1, 5]), H("iour", "ur_fault", 2, 3, args=[0, 9]),
+]
 CHECKS = {
-    "C14": {"harnesses": C14_EPOLL, "deadline": {"quick": 600, "thorough": 3000}},
+    "C14": {"harnesses": C14_EPOLL + C14_URING, "deadline": {"quick": 900, "thorough": 4000}},
     "C20": {"harnesses": C20_HARNESSES, "configs": {"quick": ["c17rel", "c20dbg", "c17dbgv", "c20relv"], "thorough": ALL_CONFIGS},
             "header_matrix": True, "deadline": {"quick": 600, "thorough": 3000}},
     "C19": {"harnesses": C19_HARNESSES},
